@@ -1,0 +1,49 @@
+//! Verification hooks for the encoding side. Only compiled with the `verif_hooks` feature.
+//!
+//! Thin wrappers that make crate private functions usable from an external monitor.
+//! No logic lives here, every function forwards to the real implementation.
+
+use alloc::vec::Vec;
+
+pub use super::blocks::verif_hooks::{
+    compress_literals, encode_literal_length, encode_match_len, encode_offset, encode_seqnum,
+    encode_sequences_section, raw_literals,
+};
+
+/// The three bytes the compressor writes for a block header. block_type: 0 = raw, 1 = rle, 2 = compressed
+pub fn serialize_block_header(last_block: bool, block_type: u8, block_size: u32) -> Vec<u8> {
+    use crate::blocks::block::BlockType;
+    let mut out = Vec::new();
+    super::block_header::BlockHeader {
+        last_block,
+        block_type: match block_type {
+            0 => BlockType::Raw,
+            1 => BlockType::RLE,
+            2 => BlockType::Compressed,
+            _ => BlockType::Reserved,
+        },
+        block_size,
+    }
+    .serialize(&mut out);
+    out
+}
+
+/// The bytes the compressor writes for a frame header with these fields
+pub fn serialize_frame_header(
+    frame_content_size: Option<u64>,
+    single_segment: bool,
+    content_checksum: bool,
+    dictionary_id: Option<u64>,
+    window_size: Option<u64>,
+) -> Vec<u8> {
+    let mut out = Vec::new();
+    super::frame_header::FrameHeader {
+        frame_content_size,
+        single_segment,
+        content_checksum,
+        dictionary_id,
+        window_size,
+    }
+    .serialize(&mut out);
+    out
+}
